@@ -1,9 +1,11 @@
 package checks
 
 import (
+	"context"
 	"encoding/json"
 	"fmt"
 	"os"
+	"os/exec"
 	"path/filepath"
 	"strings"
 	"sync"
@@ -161,7 +163,7 @@ func loadC13Corpus() {
 
 func TestC13(t *testing.T) {
 	r, e := start(t, "C13",
-		"(0) exhaustively every file of one or two lexemes from a 46-entry vocabulary, with and without a final line break; (0a) break / continue / return / func / import / panic in 19 kinds of context; (0b) every typed position of C06's table x every offered type and shape (totality only); (0c) call graphs of 2-90 functions (chain, Fibonacci-shaped, dense, fan-out, inside an imported file); (a) byte strings built from a dictionary of keywords, operators, quotes, comment markers, control and non-UTF-8 bytes; (b) token soup from the token vocabulary; (c) near misses: 1-2 token deletions, insertions, duplications, replacements, swaps and operand re-shapings (an operand parenthesised, indexed, sliced, turned into a call, a literal slice or a builtin result) applied to valid programs (the suite's sources, examples, std/*.tsh, generated programs); (d) import graphs over <= 4 files with every kind of edge (self-import, 2- and 3-cycles, missing files, directories, invalid imported files), main path missing or a directory. Each input is transpiled for both targets in a child worker process. Oracle: (script, nil) or (\"\", non-empty error); no panic, no worker death, no run beyond 60 s. Non-trivial = inputs that pass the lexer (they reach parser/transpiler code); distinct by input bytes.",
+		"(0) exhaustively every file of one or two lexemes from a 46-entry vocabulary, with and without a final line break; (0a) break / continue / return / func / import / panic in 19 kinds of context; (0b) every typed position of C06's table x every offered type and shape (totality only); (0c) call graphs of 2-90 functions (chain, Fibonacci-shaped, dense, fan-out, inside an imported file); (0d) deeply nested inputs (parentheses, negations, blocks, loops, indices, calls, closed and unclosed) of depth 40 to 1,000,000 run through the tsh command itself; (a) byte strings built from a dictionary of keywords, operators, quotes, comment markers, control and non-UTF-8 bytes; (b) token soup from the token vocabulary; (c) near misses: 1-2 token deletions, insertions, duplications, replacements, swaps and operand re-shapings (an operand parenthesised, indexed, sliced, turned into a call, a literal slice or a builtin result) applied to valid programs (the suite's sources, examples, std/*.tsh, generated programs); (d) import graphs over <= 4 files with every kind of edge (self-import, 2- and 3-cycles, missing files, directories, invalid imported files), main path missing or a directory. Each input is transpiled for both targets in a child worker process. Oracle: (script, nil) or (\"\", non-empty error); no panic, no worker death, no run beyond 60 s. Non-trivial = inputs that pass the lexer (they reach parser/transpiler code); distinct by input bytes.",
 		[]string{"a hang is decided by a 20 s watchdog, confirmed once in a fresh worker with 60 s (normal inputs take < 50 ms)", "super-linear slowness on inputs far larger than 2 KiB is not explored"})
 	defer r.Flush()
 	defer c13Pool.Close()
@@ -259,6 +261,25 @@ func TestC13(t *testing.T) {
 					}
 					r.Violate(rep.Sig{"kind": kind, "input": "jump-placement", "context": cx.name, "jump": strings.SplitN(j, "\n", 2)[0]}, fmt.Sprintf("%q in context %s: %s", j, cx.name, msg), c)
 				}
+			}
+		}
+	}
+
+	// deep nesting (through the tsh command: the stack limit is that of the real process)
+	{
+		for i, dc := range c13DeepCases() {
+			if !e.Mine(i*5 + 3) {
+				continue
+			}
+			r.Eval()
+			r.Class("deep-nesting:" + dc.Shape)
+			r.NonTrivial(fmt.Sprintf("deep:%s/%d", dc.Shape, dc.Depth), nil)
+			if kind, msg := checkDeep(dc); kind != "" {
+				if kind == "harness" {
+					r.HarnessError("%s", msg)
+					return
+				}
+				r.Violate(rep.Sig{"kind": kind, "input": "deep-nesting", "shape": dc.Shape}, msg, dc)
 			}
 		}
 	}
@@ -496,4 +517,126 @@ func TestC13(t *testing.T) {
 			r.FailCase(t, sig, c.Note+": "+msg+"\ninput: "+fmt.Sprintf("%q", input), c)
 		}
 	})
+}
+
+// ---- deep nesting: inputs whose nesting depth is huge (generated from shape and depth; up to 1 MB) run through the real
+// tsh command, because the size of the stack is a property of the process: a host with a smaller limit (the workers of
+// this harness) would die earlier than the command a user runs.
+
+type deepCase struct {
+	Kind     string `json:"kind"` // "deep-nesting"
+	Property string `json:"property"`
+	Shape    string `json:"shape"`
+	Depth    int    `json:"depth"`
+}
+
+func deepSource(shape string, n int) string {
+	switch shape {
+	case "parens":
+		return "x := " + strings.Repeat("(", n) + "1" + strings.Repeat(")", n) + "\nprint(x)\n"
+	case "nots":
+		return "x := " + strings.Repeat("!", n) + "true\nprint(x)\n"
+	case "blocks":
+		return strings.Repeat("if true {\n", n) + "print(1)\n" + strings.Repeat("}\n", n)
+	case "loops":
+		return strings.Repeat("for {\n", n) + "break\n" + strings.Repeat("}\n", n)
+	case "index":
+		return "s := []int{0}\nx := " + strings.Repeat("s[", n) + "0" + strings.Repeat("]", n) + "\nprint(x)\n"
+	case "calls":
+		return "func f(a int) int {\n\treturn a\n}\nx := " + strings.Repeat("f(", n) + "1" + strings.Repeat(")", n) + "\nprint(x)\n"
+	case "unclosed-parens":
+		return "x := " + strings.Repeat("(", n) + "\n"
+	case "unclosed-blocks":
+		return strings.Repeat("if true {\n", n)
+	}
+	return ""
+}
+
+// checkDeep runs tsh on the generated file for both targets. Returns "" if each run ends with a script or with an error message.
+func checkDeep(c deepCase) (kind string, msg string) {
+	tsh := os.Getenv("VERIF_TSH")
+	if tsh == "" {
+		return "harness", "VERIF_TSH is not set"
+	}
+	dir := run.Scratch("deep")
+	defer os.RemoveAll(dir)
+	in := filepath.Join(dir, "deep.tsh")
+	os.WriteFile(in, []byte(deepSource(c.Shape, c.Depth)), 0o644)
+	for _, tg := range []string{"bash", "batch"} {
+		out := filepath.Join(dir, "out-"+tg)
+		os.MkdirAll(out, 0o755)
+		ctx, cancel := context.WithTimeout(context.Background(), 300*time.Second)
+		cmd := exec.CommandContext(ctx, tsh, "-i", in, "-o", out, "-t", tg)
+		var stderr limitedTail
+		cmd.Stderr = &stderr
+		err := cmd.Run()
+		timedOut := ctx.Err() == context.DeadlineExceeded
+		cancel()
+		text := stderr.String()
+		switch {
+		case timedOut:
+			return "hang", fmt.Sprintf("%s target: tsh did not finish within 300 s (%s, depth %d)", tg, c.Shape, c.Depth)
+		case strings.Contains(text, "fatal error:") || strings.Contains(text, "goroutine stack exceeds") || strings.Contains(text, "signal:"):
+			return "died", fmt.Sprintf("%s target: the process was killed by the runtime (%s, depth %d): %s", tg, c.Shape, c.Depth, firstLine(text))
+		case strings.Contains(text, "panic: runtime error"):
+			return "panic", fmt.Sprintf("%s target (%s, depth %d): %s", tg, c.Shape, c.Depth, firstLine(text))
+		case err != nil && strings.TrimSpace(strings.TrimPrefix(firstLine(text), "panic:")) == "":
+			return "empty-error", fmt.Sprintf("%s target: tsh failed without a message (%s, depth %d)", tg, c.Shape, c.Depth)
+		}
+		files, _ := os.ReadDir(out)
+		if err == nil && len(files) == 0 {
+			return "empty-script", fmt.Sprintf("%s target: exit 0 but no script (%s, depth %d)", tg, c.Shape, c.Depth)
+		}
+		if err != nil && len(files) > 0 {
+			return "script-and-error", fmt.Sprintf("%s target: tsh failed but wrote a file (%s, depth %d)", tg, c.Shape, c.Depth)
+		}
+	}
+	return "", ""
+}
+
+func firstLine(s string) string {
+	for _, l := range strings.Split(s, "\n") {
+		if strings.TrimSpace(l) != "" {
+			if len(l) > 300 {
+				l = l[:300]
+			}
+			return l
+		}
+	}
+	return ""
+}
+
+// limitedTail keeps the first 64 KiB of what is written to it.
+type limitedTail struct{ b []byte }
+
+func (l *limitedTail) Write(p []byte) (int, error) {
+	if len(l.b) < 64<<10 {
+		l.b = append(l.b, p...)
+	}
+	return len(p), nil
+}
+func (l *limitedTail) String() string { return string(l.b) }
+
+func init() {
+	replayFuncs["deep-nesting"] = func(raw json.RawMessage) (bool, string) {
+		var c deepCase
+		json.Unmarshal(raw, &c)
+		k, msg := checkDeep(c)
+		return k == "", k + ": " + msg
+	}
+}
+
+// c13DeepCases: shape x depth. The small depths only cost milliseconds; the large ones are the sizes at which an unbounded
+// recursive descent runs out of the 1 GB stack of a Go process.
+func c13DeepCases() []deepCase {
+	out := []deepCase{}
+	for _, shape := range []string{"parens", "nots", "blocks", "loops", "index", "calls", "unclosed-parens", "unclosed-blocks"} {
+		for _, n := range []int{40, 3000, 12000} {
+			out = append(out, deepCase{Kind: "deep-nesting", Property: "C13", Shape: shape, Depth: n})
+		}
+	}
+	out = append(out, deepCase{Kind: "deep-nesting", Property: "C13", Shape: "parens", Depth: 500000},
+		deepCase{Kind: "deep-nesting", Property: "C13", Shape: "nots", Depth: 1000000},
+		deepCase{Kind: "deep-nesting", Property: "C13", Shape: "unclosed-parens", Depth: 600000})
+	return out
 }
